@@ -3,10 +3,13 @@
    Vocabulary (Model.v / Spec.v).  A *script* [s : list (reply R)] is the list of answers the
    server gives to the successive page requests of one query ([RPage rows more state], [RErr e],
    [RVoid], [RUnprep]); a request beyond the script is never answered and fails with [E_noreply].
-   [open q auto posf ps s] is Query.Iter(): the Iter after the first page was fetched, for a query
-   whose fixed part is [q], with automatic paging iff [auto], prefetch position function [posf]
-   (any function: the theorems hold for every prefetch threshold) and caller-supplied page state
-   [ps].  [scan] / [next] / [map_scan] are one call of Iter.Scan / Scanner.Next / Iter.MapScan
+   [RPage rows more state mt] carries the result metadata [mt] the server sent with the page.
+   [open q auto posf mm nr ps s] is Query.Iter(): the Iter after the first page was fetched, for a
+   query whose fixed part is [q], with automatic paging iff [auto], prefetch position function
+   [posf] (any function: the theorems hold for every prefetch threshold), metadata mode [mm]
+   ([UsePrepared pm]: prepared statement executed with skip_metadata, [UseServer] otherwise), a
+   retry policy that retries a failed fetch up to [nr] times per page (0 = none, the default) and
+   caller-supplied page state [ps].  A delivered row is a pair (row, metadata it was decoded with).  [scan] / [next] / [map_scan] are one call of Iter.Scan / Scanner.Next / Iter.MapScan
    (result None = the call returned false), [calls f k m] is k successive calls, [slice_map] is
    Iter.SliceMap, [close] is Iter.Close() = Scanner.Err(), [page_state] is Iter.PageState(),
    [m_reqs] the requests sent so far in order, [sched m ls] runs the consumer's calls interleaved
@@ -18,162 +21,202 @@ From GocqlV Require Import Lib.Base C15.Model C15.Spec C15.Proofs1 C15.Proofs2 C
 (* the request for the page after a page that carried paging state [st] *)
 Definition req {Q} (q : Q) (st : list Z) : request Q := mkReq q (wire_ps st).
 (* what k calls must return when the result set is [rows]: its first k rows, then `false` *)
-Definition yields {R} (rows : list R) (k : nat) : list (option R) :=
+Definition yields {A} (rows : list A) (k : nat) : list (option A) :=
   map Some (firstn k rows) ++ repeat None (k - length rows).
 
-(* 1. Every row of every page exactly once, in server order, then false for ever: for each of the
-      per-call consumers, every script (any number of pages, empty pages, empty last page, errors,
-      UNPREPARED anywhere), every prefetch threshold and every number of calls. *)
-Theorem C15_rows_in_order : forall R Q (q : Q) posf (s : list (reply R)) k,
-  fst (calls (scan q true posf) k (open q true posf [] s)) = yields (spec_rows true s) k
-  /\ fst (calls (next q true posf) k (open q true posf [] s)) = yields (spec_rows true s) k
-  /\ fst (calls (map_scan q true posf) k (open q true posf [] s)) = yields (spec_rows true s) k.
+(* 1. Every row of every page exactly once, in server order, each decoded with the specified
+      metadata, then false for ever: for each of the per-call consumers, every script (any number of
+      pages, empty pages, empty last page, errors, UNPREPARED anywhere), every prefetch threshold,
+      metadata mode, retry budget and number of calls. *)
+Theorem C15_rows_in_order : forall R M Q (q : Q) posf mm nr (s : list (reply R M)) k,
+  fst (calls (scan q true posf mm nr) k (open q true posf mm nr [] s)) = yields (spec_rows true mm nr nr s) k
+  /\ fst (calls (next q true posf mm nr) k (open q true posf mm nr [] s)) = yields (spec_rows true mm nr nr s) k
+  /\ fst (calls (map_scan q true posf mm nr) k (open q true posf mm nr [] s)) = yields (spec_rows true mm nr nr s) k.
 Proof.
   intros. split; [|split].
-  - exact (proj1 (consumer_calls q posf true (scan q true posf) true [] s k (fun m => eq_refl))).
-  - exact (proj1 (consumer_calls q posf true (next q true posf) false [] s k (fun m => eq_refl))).
-  - exact (proj1 (consumer_calls q posf true (map_scan q true posf) true [] s k (map_scan_scan q true posf))).
+  - exact (proj1 (consumer_calls q posf mm nr true (scan q true posf mm nr) true [] s k (fun m => eq_refl))).
+  - exact (proj1 (consumer_calls q posf mm nr true (next q true posf mm nr) false [] s k (fun m => eq_refl))).
+  - exact (proj1 (consumer_calls q posf mm nr true (map_scan q true posf mm nr) true [] s k (map_scan_scan q true posf mm nr))).
 Qed.
 Print Assumptions C15_rows_in_order.
 
+(* 1b. Which metadata: a prepared statement executed with skip_metadata decodes every page with the
+      metadata of its PREPARE result; otherwise every row is decoded with the metadata of the very
+      page it arrived in.  (Every delivered row, any consumer call sequence.) *)
+Theorem C15_metadata_used : forall R M Q (q : Q) posf nr (s : list (reply R M)) k r m,
+  (forall pm, In (Some (r, m)) (fst (calls (scan q true posf (UsePrepared pm) nr) k (open q true posf (UsePrepared pm) nr [] s))) -> m = pm)
+  /\ (In (Some (r, m)) (fst (calls (scan q true posf UseServer nr) k (open q true posf UseServer nr [] s))) ->
+      exists rows more st, In (RPage rows more st m) s /\ In r rows).
+Proof.
+  intros R M Q q posf nr s k r m.
+  assert (X : forall mm, In (Some (r, m)) (fst (calls (scan q true posf mm nr) k (open q true posf mm nr [] s))) ->
+                         In (r, m) (spec_rows true mm nr nr s)).
+  { intros mm H. rewrite (proj1 (C15_rows_in_order R M Q q posf mm nr s k)) in H. unfold yields in H.
+    apply in_app_or in H. destruct H as [H|H].
+    - apply in_map_iff in H. destruct H as (d & E & Hd). inversion E; subst. eapply In_firstn; eauto.
+    - apply repeat_spec in H. discriminate. }
+  split.
+  - intros pm H. pose proof (spec_rows_prepared_meta true pm nr s nr) as F. rewrite Forall_forall in F.
+    exact (F _ (X _ H)).
+  - intro H. exact (spec_rows_server_meta true nr s nr r m (X _ H)).
+Qed.
+Print Assumptions C15_metadata_used.
+
 (* 2. SliceMap returns all rows and no error, or no rows and the error; either way the requests it
-      sent are exactly the specified ones. *)
-Theorem C15_slice_map : forall R Q (q : Q) posf (s : list (reply R)),
-  exists m', slice_map q true posf (open q true posf [] s)
-             = Some (match spec_end true s with None => spec_rows true s | Some _ => [] end, spec_end true s, m')
-    /\ m_reqs m' = map (req q) (spec_states true [] s).
-Proof. intros. exact (slice_map_open q true posf [] s). Qed.
+      sent are exactly the specified ones -- and this is so however the prefetch goroutine is
+      scheduled between the Scan calls of its loop ([fires]). *)
+Theorem C15_slice_map : forall R M Q (q : Q) posf mm nr (s : list (reply R M)) fires,
+  exists m', slice_map_sched q true posf mm nr (open q true posf mm nr [] s) fires
+             = Some (match spec_end true nr nr s with None => spec_rows true mm nr nr s | Some _ => [] end, spec_end true nr nr s, m')
+    /\ m_reqs m' = map (req q) (spec_states true nr nr [] s)
+    /\ slice_map q true posf mm nr (open q true posf mm nr [] s) = slice_map_sched q true posf mm nr (open q true posf mm nr [] s) fires.
+Proof.
+  intros. destruct (slice_map_open q true posf mm nr [] s) as (m' & A & B). exists m'.
+  rewrite slice_map_any_schedule. split; [exact A|split; [exact B|reflexivity]].
+Qed.
 Print Assumptions C15_slice_map.
 
 (* 3. A failed fetch surfaces as the iteration's error, never as an early normal end: once a call
-      has returned false, Close()/Err() is the specified end; it is nil only if a page without
-      has_more_pages (or a void result) was reached through pages that all had more, and it is e
-      only if the server answered e (or did not answer) at that point. *)
-Theorem C15_error_surfaces : forall R Q (q : Q) posf (s : list (reply R)) k call,
-  (call = scan q true posf \/ call = next q true posf \/ call = map_scan q true posf) ->
-  (length (spec_rows true s) < k)%nat ->
-  let e := close (snd (calls call k (open q true posf [] s))) in
-  e = spec_end true s
-  /\ (e = None -> exists pre r post, s = pre ++ r :: post /\ forallb (@continues R) pre = true
-                    /\ (r = RVoid R \/ exists rows st, r = RPage rows false st))
-  /\ (forall c, e = Some c ->
-        (exists pre post, s = pre ++ RErr R c :: post /\ forallb (@continues R) pre = true)
-        \/ (c = E_noreply /\ forallb (@continues R) s = true)).
+      has returned false, Close()/Err() is the specified end (with a retry policy: the error of the
+      last retry) ... *)
+Theorem C15_error_surfaces : forall R M Q (q : Q) posf mm nr (s : list (reply R M)) k call,
+  (call = scan q true posf mm nr \/ call = next q true posf mm nr \/ call = map_scan q true posf mm nr) ->
+  (length (spec_rows true mm nr nr s) < k)%nat ->
+  close (snd (calls call k (open q true posf mm nr [] s))) = spec_end true nr nr s.
 Proof.
-  intros R Q q posf s k call Hc Hk e.
-  assert (E : e = spec_end true s).
-  { unfold e. destruct Hc as [Hc|[Hc|Hc]]; subst call.
-    - exact (proj1 (proj2 (proj2 (consumer_calls q posf true (scan q true posf) true [] s k (fun m => eq_refl))) Hk)).
-    - exact (proj1 (proj2 (proj2 (consumer_calls q posf true (next q true posf) false [] s k (fun m => eq_refl))) Hk)).
-    - exact (proj1 (proj2 (proj2 (consumer_calls q posf true (map_scan q true posf) true [] s k (map_scan_scan q true posf))) Hk)). }
-  split; [exact E|]. rewrite E. split; [apply spec_end_normal|apply spec_end_error].
+  intros R M Q q posf mm nr s k call Hc Hk. destruct Hc as [Hc|[Hc|Hc]]; subst call.
+  - exact (proj1 (proj2 (proj2 (consumer_calls q posf mm nr true (scan q true posf mm nr) true [] s k (fun m => eq_refl))) Hk)).
+  - exact (proj1 (proj2 (proj2 (consumer_calls q posf mm nr true (next q true posf mm nr) false [] s k (fun m => eq_refl))) Hk)).
+  - exact (proj1 (proj2 (proj2 (consumer_calls q posf mm nr true (map_scan q true posf mm nr) true [] s k (map_scan_scan q true posf mm nr))) Hk)).
 Qed.
 Print Assumptions C15_error_surfaces.
 
+(* 3b. ... and, without a retry policy, that end is nil only if a page without has_more_pages (or a
+      void result) was reached through pages that all had more, and it is e only if the server
+      answered e (or did not answer) at that point. *)
+Theorem C15_end_is_what_the_server_said : forall R M (s : list (reply R M)),
+  (spec_end true 0 0 s = None -> exists pre r post, s = pre ++ r :: post /\ forallb (@continues R M) pre = true
+                    /\ (r = RVoid R M \/ exists rows st mt, r = RPage rows false st mt))
+  /\ (forall c, spec_end true 0 0 s = Some c ->
+        (exists pre post, s = pre ++ RErr R M c :: post /\ forallb (@continues R M) pre = true)
+        \/ (c = E_noreply /\ forallb (@continues R M) s = true)).
+Proof. intros. split; [apply spec_end_normal|apply spec_end_error]. Qed.
+Print Assumptions C15_end_is_what_the_server_said.
+
+(* 3c. With a retry policy, errors that are retried are invisible: rows and end are those of the
+      script in which every retried error reads "the same request again" (like UNPREPARED). *)
+Theorem C15_retried_errors_invisible : forall R M mm (s : list (reply R M)) auto nr,
+  spec_rows auto mm nr nr s = spec_rows auto mm 0 0 (retried nr nr s)
+  /\ spec_end auto nr nr s = spec_end auto 0 0 (retried nr nr s).
+Proof. intros. apply spec_retried. Qed.
+Print Assumptions C15_retried_errors_invisible.
+
 (* 4. The requests.  Under every schedule of the prefetch and after any number of calls, the
       requests sent are a prefix of the specified sequence (first the caller's state, then for each
-      page with more pages exactly the state it carried, the same again after UNPREPARED, nothing
-      after a last page / error / void), all built from the same [q]; and once a call has returned
-      false they are exactly that sequence.  Same for a Scanner (which never prefetches). *)
-Theorem C15_requests : forall R Q (q : Q) posf (s : list (reply R)) ls,
-  let m := snd (sched q true posf (open q true posf [] s) ls) in
-  (exists tl, map (req q) (spec_states true [] s) = m_reqs m ++ tl)
-  /\ ((length (spec_rows true s) < ncalls ls)%nat -> m_reqs m = map (req q) (spec_states true [] s)).
+      page with more pages exactly the state it carried, the same again after UNPREPARED and after
+      a failure that is retried, nothing after a last page / final error / void), all built from the
+      same [q]; and once a call has returned false they are exactly that sequence. *)
+Theorem C15_requests : forall R M Q (q : Q) posf mm nr (s : list (reply R M)) ls,
+  let m := snd (sched q true posf mm nr (open q true posf mm nr [] s) ls) in
+  (exists tl, map (req q) (spec_states true nr nr [] s) = m_reqs m ++ tl)
+  /\ ((length (spec_rows true mm nr nr s) < ncalls ls)%nat -> m_reqs m = map (req q) (spec_states true nr nr [] s)).
 Proof.
-  intros R Q q posf s ls m. destruct (any_schedule q posf true [] s ls) as (_ & _ & A & B).
+  intros R M Q q posf mm nr s ls m. destruct (any_schedule q posf mm nr true [] s ls) as (_ & _ & A & B).
   split; [exact A|]. intro H. exact (proj2 (proj2 (B H))).
 Qed.
 Print Assumptions C15_requests.
 
-Theorem C15_requests_scanner : forall R Q (q : Q) posf (s : list (reply R)) k,
-  let m := snd (calls (next q true posf) k (open q true posf [] s)) in
-  (exists tl, map (req q) (spec_states true [] s) = m_reqs m ++ tl)
-  /\ ((length (spec_rows true s) < k)%nat -> m_reqs m = map (req q) (spec_states true [] s)).
+(* 4b. Same for a Scanner (which never prefetches). *)
+Theorem C15_requests_scanner : forall R M Q (q : Q) posf mm nr (s : list (reply R M)) k,
+  let m := snd (calls (next q true posf mm nr) k (open q true posf mm nr [] s)) in
+  (exists tl, map (req q) (spec_states true nr nr [] s) = m_reqs m ++ tl)
+  /\ ((length (spec_rows true mm nr nr s) < k)%nat -> m_reqs m = map (req q) (spec_states true nr nr [] s)).
 Proof.
-  intros R Q q posf s k m.
-  destruct (consumer_calls q posf true (next q true posf) false [] s k (fun m => eq_refl)) as (_ & A & B).
+  intros R M Q q posf mm nr s k m.
+  destruct (consumer_calls q posf mm nr true (next q true posf mm nr) false [] s k (fun m => eq_refl)) as (_ & A & B).
   split; [exact A|]. intro H. exact (proj2 (B H)).
 Qed.
 Print Assumptions C15_requests_scanner.
 
-(* 5. Said for a script that is n pages with more pages followed by an answer that is not one:
-      the rows are the concatenation of the pages, and there are exactly n+1 requests -- the first
-      without paging state, request i+1 with exactly the state of page i -- whatever follows in
-      the script (no request after the page that says it is last).  Assumption on the server: the
-      paging states it hands out are not empty (every server; a zero-length state with
+(* 5. Said for a script that is n pages with more pages followed by an answer that is not one, no
+      retry policy: the rows are the concatenation of the pages, and there are exactly n+1 requests
+      -- the first without paging state, request i+1 with exactly the state of page i -- whatever
+      follows in the script (no request after the page that says it is last).  Assumption on the
+      server: the paging states it hands out are not empty (every server; a zero-length state with
       has_more_pages is outside the property's quantifier -- Refuted.v shows what the code does
       then: it sends no state, i.e. the first request again). *)
 Theorem C15_request_carries_previous_state :
-  forall R Q (q : Q) posf (pages : list (list R * list Z)) (fin : reply R) rest ls,
+  forall R M Q (q : Q) posf mm (pages : list (list R * list Z * M)) (fin : reply R M) rest ls,
   continues fin = false ->
-  Forall (fun p => snd p <> []) pages ->
-  let s := map (@more_page R) pages ++ fin :: rest in
-  let r := sched q true posf (open q true posf [] s) ls in
-  (length (concat (map fst pages) ++ match fin with RPage rows _ _ => rows | _ => [] end) < ncalls ls)%nat ->
-  fst r = yields (concat (map fst pages) ++ match fin with RPage rows _ _ => rows | _ => [] end) (ncalls ls)
-  /\ m_reqs (snd r) = mkReq q None :: map (fun p => mkReq q (Some (snd p))) pages
-  /\ close (snd r) = match fin with RErr _ e => Some e | _ => None end.
+  Forall (fun p => snd (fst p) <> []) pages ->
+  let s := map (@more_page R M) pages ++ fin :: rest in
+  let r := sched q true posf mm 0 (open q true posf mm 0 [] s) ls in
+  (length (concat (map (page_rows mm) pages) ++ fin_rows mm fin) < ncalls ls)%nat ->
+  fst r = yields (concat (map (page_rows mm) pages) ++ fin_rows mm fin) (ncalls ls)
+  /\ m_reqs (snd r) = mkReq q None :: map (fun p => mkReq q (Some (snd (fst p)))) pages
+  /\ close (snd r) = match fin with RErr _ _ e => Some e | _ => None end.
 Proof.
-  intros R Q q posf pages fin rest ls Hc Hst s r Hk.
-  destruct (any_schedule q posf true [] s ls) as (A & _ & _ & B).
+  intros R M Q q posf mm pages fin rest ls Hc Hst s r Hk.
+  destruct (any_schedule q posf mm 0 true [] s ls) as (A & _ & _ & B).
   unfold s in *. rewrite spec_rows_pages in * by exact Hc. split; [exact A|].
   destruct (B Hk) as (_ & B2 & B3). rewrite spec_end_pages in B2 by exact Hc. split; [|exact B2].
   fold r in B3. rewrite B3, spec_states_pages by exact Hc. cbn [map]. f_equal.
   rewrite map_map. apply map_ext_in. intros p Hp. rewrite Forall_forall in Hst. specialize (Hst p Hp).
-  unfold mk, wire_ps. destruct (snd p); [congruence|reflexivity].
+  unfold mk, wire_ps. destruct (snd (fst p)); [congruence|reflexivity].
 Qed.
 Print Assumptions C15_request_carries_previous_state.
 
-(* 6. The number of requests never exceeds one plus the number of leading answers that keep the
-      iteration going -- under any schedule, whatever the consumer does. *)
-Theorem C15_no_request_after_last_page : forall R Q (q : Q) posf (s : list (reply R)) ls,
-  (length (m_reqs (snd (sched q true posf (open q true posf [] s) ls))) <= S (length (leading s)))%nat.
+(* 6. Without a retry policy the number of requests never exceeds one plus the number of leading
+      answers that keep the iteration going -- under any schedule, whatever the consumer does. *)
+Theorem C15_no_request_after_last_page : forall R M Q (q : Q) posf mm (s : list (reply R M)) ls,
+  (length (m_reqs (snd (sched q true posf mm 0 (open q true posf mm 0 [] s) ls))) <= S (length (leading s)))%nat.
 Proof.
-  intros. destruct (any_schedule q posf true [] s ls) as (_ & _ & [tl A] & _).
+  intros. destruct (any_schedule q posf mm 0 true [] s ls) as (_ & _ & [tl A] & _).
   apply (f_equal (@length _)) in A. rewrite map_length, app_length, spec_states_length in A. lia.
 Qed.
 Print Assumptions C15_no_request_after_last_page.
 
-(* 7. Manual paging (Query.PageState(ps)): under every schedule and after any number of calls,
-      exactly one page request was sent (repeated only for UNPREPARED), with the caller's state;
-      the rows are those of that one page; PageState() exposes the state the page carried (empty =
-      no more pages); a failed fetch is the error. *)
-Theorem C15_manual_paging : forall R Q (q : Q) posf ps (s : list (reply R)) ls,
-  let r := sched q false posf (open q false posf ps s) ls in
-  fst r = yields (match first_answer s with Some (RPage rows _ _) => rows | _ => [] end) (ncalls ls)
+(* 7. Manual paging (Query.PageState(ps)), no retry policy: under every schedule and after any
+      number of calls, exactly one page request was sent (repeated only for UNPREPARED), with the
+      caller's state; the rows are those of that one page; PageState() exposes the state the page
+      carried (empty = no more pages); a failed fetch is the error. *)
+Theorem C15_manual_paging : forall R M Q (q : Q) posf mm ps (s : list (reply R M)) ls,
+  let r := sched q false posf mm 0 (open q false posf mm 0 ps s) ls in
+  fst r = yields (match first_answer s with Some a => fin_rows mm a | None => [] end) (ncalls ls)
   /\ m_reqs (snd r) = repeat (req q ps) (S (unpreps s))
-  /\ (forall rows more st, first_answer s = Some (RPage rows more st) ->
+  /\ (forall rows more st mt, first_answer s = Some (RPage rows more st mt) ->
         page_state (snd r) = (if more then st else []) /\ close (snd r) = None)
-  /\ (forall e, first_answer s = Some (RErr R e) -> close (snd r) = Some e)
+  /\ (forall e, first_answer s = Some (RErr R M e) -> close (snd r) = Some e)
   /\ (first_answer s = None -> close (snd r) = Some E_noreply).
-Proof. intros. exact (manual_any_schedule q posf ps s ls). Qed.
+Proof. intros. exact (manual_any_schedule q posf mm ps s ls). Qed.
 Print Assumptions C15_manual_paging.
 
 (* 8. The asynchronous prefetch cannot be observed.  For every schedule: the consumer's calls
-      return what they return with no prefetch at all; once a spawned prefetch has landed the whole
-      state equals that of the prefetch-free run; and after a call has returned false the states
-      are equal as they are.  (Both paging modes, any caller state.) *)
-Theorem C15_prefetch_irrelevant : forall R Q (q : Q) auto posf ps (s : list (reply R)) ls,
-  let m0 := open q auto posf ps s in
-  let r := sched q auto posf m0 ls in
-  let c := calls (scan q auto posf) (ncalls ls) m0 in
+      (Scan and MapScan in any mix) return what they return with no prefetch at all; once a spawned
+      prefetch has landed the whole state equals that of the prefetch-free run; and after a call
+      has returned false the states are equal as they are.  (Both paging modes, any caller state,
+      metadata mode and retry budget; SliceMap's loop: theorem 2.) *)
+Theorem C15_prefetch_irrelevant : forall R M Q (q : Q) auto posf mm nr ps (s : list (reply R M)) ls,
+  let m0 := open q auto posf mm nr ps s in
+  let r := sched q auto posf mm nr m0 ls in
+  let c := calls (scan q auto posf mm nr) (ncalls ls) m0 in
   fst r = fst c
-  /\ async q auto posf (snd r) = async q auto posf (snd c)
-  /\ ((length (spec_rows auto s) < ncalls ls)%nat -> snd r = snd c).
+  /\ async q auto posf mm nr (snd r) = async q auto posf mm nr (snd c)
+  /\ ((length (spec_rows auto mm nr nr s) < ncalls ls)%nat -> snd r = snd c).
 Proof.
-  intros R Q q auto posf ps s ls m0 r c.
-  destruct (any_schedule q posf auto ps s ls) as (A & B & _ & C).
+  intros R M Q q auto posf mm nr ps s ls m0 r c.
+  destruct (any_schedule q posf mm nr auto ps s ls) as (A & B & _ & C).
   split; [|split; [exact B|intro H; exact (proj1 (C H))]].
   fold m0 in A. fold r in A. rewrite A.
-  symmetry. exact (proj1 (consumer_calls q posf auto (scan q auto posf) true ps s (ncalls ls) (fun m => eq_refl))).
+  symmetry. exact (proj1 (consumer_calls q posf mm nr auto (scan q auto posf mm nr) true ps s (ncalls ls) (fun m => eq_refl))).
 Qed.
 Print Assumptions C15_prefetch_irrelevant.
 
 (* 9. The recursion fuel of Scan / Next (Model.scan_go; the Go code recurses after a page switch) is
       never used up: more fuel changes nothing, so no statement above holds "because fuel ran out"
       (the out-of-fuel result would be the distinct error [E_fuel]). *)
-Theorem C15_fuel_never_runs_out : forall R Q (q : Q) auto posf pre (m : mach R Q) extra,
-  scan_go q auto posf pre (mu m + 2 + extra) m = scan_go q auto posf pre (mu m + 2) m.
+Theorem C15_fuel_never_runs_out : forall R M Q (q : Q) auto posf mm nr pre (m : mach R M Q) extra,
+  scan_go q auto posf mm nr pre (mu m + 2 + extra) m = scan_go q auto posf mm nr pre (mu m + 2) m.
 Proof.
   intros. apply scan_go_fuel; [|apply enough_mu]. unfold enough. split; intros; lia.
 Qed.
@@ -181,33 +224,42 @@ Print Assumptions C15_fuel_never_runs_out.
 
 (* ---- non-vacuity: the hypotheses are satisfiable by non-trivial values ------------------------- *)
 Example C15_nonvacuous :
-  let pages := [([10; 11; 12], [7; 7]); ([], [8]); ([20], [9; 9; 9])] in
-  let fin := RPage [30; 31] false [] in
-  let s := map (@more_page Z) pages ++ fin :: [RPage [99] false []] in
+  let pages := [([10; 11; 12], [7; 7], 100); ([], [8], 101); ([20], [9; 9; 9], 102)] in
+  let fin := RPage [30; 31] false [] 103 in
+  let s := map (@more_page Z Z) pages ++ fin :: [RPage [99] false [] 104] in
   let ls := [LScan; LScan; LScan; LAsync; LMapScan; LScan; LAsync; LMapScan; LScan; LScan] in
-  continues fin = false /\ Forall (fun p => snd p <> []) pages
-  /\ Nat.lt (length (concat (map fst pages) ++ [30; 31])) (ncalls ls)
-  /\ fst (sched 5 true (prefetch_pos 1 4) (open 5 true (prefetch_pos 1 4) [] s) ls)
-     = [Some 10; Some 11; Some 12; Some 20; Some 30; Some 31; None; None]
-  /\ m_reqs (snd (sched 5 true (prefetch_pos 1 4) (open 5 true (prefetch_pos 1 4) [] s) ls))
+  let mm := UsePrepared 55 in
+  continues fin = false /\ Forall (fun p => snd (fst p) <> []) pages
+  /\ Nat.lt (length (concat (map (page_rows mm) pages) ++ fin_rows mm fin)) (ncalls ls)
+  /\ fst (sched 5 true (prefetch_pos 1 4) mm 0 (open 5 true (prefetch_pos 1 4) mm 0 [] s) ls)
+     = [Some (10, 55); Some (11, 55); Some (12, 55); Some (20, 55); Some (30, 55); Some (31, 55); None; None]
+  /\ map (fun o => match o with Some d => snd d | None => 0 end)
+         (fst (sched 5 true (prefetch_pos 1 4) UseServer 0 (open 5 true (prefetch_pos 1 4) UseServer 0 [] s) ls))
+     = [100; 100; 100; 102; 103; 103; 0; 0]
+  /\ m_reqs (snd (sched 5 true (prefetch_pos 1 4) mm 0 (open 5 true (prefetch_pos 1 4) mm 0 [] s) ls))
      = [mkReq 5 None; mkReq 5 (Some [7; 7]); mkReq 5 (Some [8]); mkReq 5 (Some [9; 9; 9])]
   (* the prefetch really fires: the third Scan spawns it, and once it has run page two is requested *)
-  /\ length (m_reqs (snd (sched 5 true (prefetch_pos 1 4) (open 5 true (prefetch_pos 1 4) [] s) [LScan; LScan; LScan; LAsync]))) = 2%nat
-  /\ length (m_reqs (snd (sched 5 true (prefetch_pos 1 4) (open 5 true (prefetch_pos 1 4) [] s) [LScan; LScan; LScan]))) = 1%nat.
+  /\ length (m_reqs (snd (sched 5 true (prefetch_pos 1 4) mm 0 (open 5 true (prefetch_pos 1 4) mm 0 [] s) [LScan; LScan; LScan; LAsync]))) = 2%nat
+  /\ length (m_reqs (snd (sched 5 true (prefetch_pos 1 4) mm 0 (open 5 true (prefetch_pos 1 4) mm 0 [] s) [LScan; LScan; LScan]))) = 1%nat.
 Proof.
   cbv zeta. split; [reflexivity|]. split; [repeat constructor; discriminate|].
   split; [vm_compute; lia|]. repeat split; vm_compute; reflexivity.
 Qed.
 
-(* an error in the middle, and manual paging *)
+(* an error in the middle (surfacing without a retry policy, invisible with one), and manual paging *)
 Example C15_nonvacuous_error :
-  let s := [RPage [1; 2] true [4]; RUnprep Z; RErr Z 4608; RPage [3] false []] in
-  Nat.lt (length (spec_rows true s)) 4
-  /\ fst (calls (next 0 true (prefetch_pos 1 4)) 4 (open 0 true (prefetch_pos 1 4) [] s)) = [Some 1; Some 2; None; None]
-  /\ close (snd (calls (next 0 true (prefetch_pos 1 4)) 4 (open 0 true (prefetch_pos 1 4) [] s))) = Some 4608
-  /\ m_reqs (snd (calls (next 0 true (prefetch_pos 1 4)) 4 (open 0 true (prefetch_pos 1 4) [] s)))
+  let s := [RPage [1; 2] true [4] 7; RUnprep Z Z; RErr Z Z 4608; RPage [3] false [] 8] in
+  let P := prefetch_pos 1 4 in
+  Nat.lt (length (spec_rows true UseServer 0 0 s)) 4
+  /\ fst (calls (next 0 true P UseServer 0) 4 (open 0 true P UseServer 0 [] s)) = [Some (1, 7); Some (2, 7); None; None]
+  /\ close (snd (calls (next 0 true P UseServer 0) 4 (open 0 true P UseServer 0 [] s))) = Some 4608
+  /\ m_reqs (snd (calls (next 0 true P UseServer 0) 4 (open 0 true P UseServer 0 [] s)))
      = [mkReq 0 None; mkReq 0 (Some [4]); mkReq 0 (Some [4])]
-  /\ first_answer s = Some (RPage [1; 2] true [4])
-  /\ page_state (snd (sched 0 false (prefetch_pos 1 4) (open 0 false (prefetch_pos 1 4) [6] s) [LScan; LScan; LScan])) = [4]
-  /\ m_reqs (snd (sched 0 false (prefetch_pos 1 4) (open 0 false (prefetch_pos 1 4) [6] s) [LScan; LScan; LScan])) = [mkReq 0 (Some [6])].
+  /\ fst (calls (next 0 true P UseServer 1) 5 (open 0 true P UseServer 1 [] s)) = [Some (1, 7); Some (2, 7); Some (3, 8); None; None]
+  /\ close (snd (calls (next 0 true P UseServer 1) 5 (open 0 true P UseServer 1 [] s))) = None
+  /\ m_reqs (snd (calls (next 0 true P UseServer 1) 5 (open 0 true P UseServer 1 [] s)))
+     = [mkReq 0 None; mkReq 0 (Some [4]); mkReq 0 (Some [4]); mkReq 0 (Some [4])]
+  /\ first_answer s = Some (RPage [1; 2] true [4] 7)
+  /\ page_state (snd (sched 0 false P UseServer 0 (open 0 false P UseServer 0 [6] s) [LScan; LScan; LScan])) = [4]
+  /\ m_reqs (snd (sched 0 false P UseServer 0 (open 0 false P UseServer 0 [6] s) [LScan; LScan; LScan])) = [mkReq 0 (Some [6])].
 Proof. cbv zeta. split; [vm_compute; lia|]. repeat split; vm_compute; reflexivity. Qed.
